@@ -1,5 +1,6 @@
 import Dashu.Model.Int.Ops
 import Dashu.Proofs.Int.Repr
+import Dashu.Proofs.Int.Mul
 /-
   Refinement of the operator layer (`add_ops.rs` / `mul_ops.rs` sign tables composed with the
   dispatch layer) and of multiplication by a word / double word (`mul/mod.rs`, `shift.rs`,
@@ -372,6 +373,28 @@ theorem mulLargeFrontier_spec (W : Nat) (hW : 1 ≤ W) (lhs rhs : List Nat) :
   ⟨ofNat_value W hW _, ofNat_canon W hW _⟩
 
 
+/-- `mul_large`: exact and canonical; the schoolbook arm is refined down to the word loops (and its
+    `debug_assert_zero!` carry is zero), the remaining arms are the frontier kernel -/
+theorem mulLarge_spec (W : Nat) (hW : 1 ≤ W) (lhs rhs : List Nat) (hl : IsWords W lhs)
+    (hr : IsWords W rhs) :
+    (mulLarge W lhs rhs).value W = val W lhs * val W rhs ∧ (mulLarge W lhs rhs).Canon W := by
+  unfold mulLarge
+  split
+  · rename_i heq
+    have := mulLargeFrontier_spec W hW lhs lhs
+    rw [← heq]; exact this
+  · by_cases hlt : lhs.length < rhs.length
+    · simp only [hlt, if_true]
+      split
+      · obtain ⟨_, h2, h3⟩ := addMulChunk_zero W rhs lhs hr hl
+        exact ⟨by rw [fromBuffer_value, h2, Nat.mul_comm], fromBuffer_canon W _ h3⟩
+      · exact mulLargeFrontier_spec W hW lhs rhs
+    · simp only [hlt, if_false]
+      split
+      · obtain ⟨_, h2, h3⟩ := addMulChunk_zero W lhs rhs hl hr
+        exact ⟨by rw [fromBuffer_value, h2], fromBuffer_canon W _ h3⟩
+      · exact mulLargeFrontier_spec W hW lhs rhs
+
 theorem TRepr.mul_spec (W : Nat) (hW : 1 ≤ W) (a b : TRepr) (ha : a.Canon W) (hb : b.Canon W) :
     (a.mul W b).value W = a.value W * b.value W ∧ (a.mul W b).Canon W := by
   cases a with
@@ -385,7 +408,7 @@ theorem TRepr.mul_spec (W : Nat) (hW : 1 ≤ W) (a b : TRepr) (ha : a.Canon W) (
   | large ws =>
     cases b with
     | small y => exact mulLargeDword_spec W ws y ha.large_words hb
-    | large w1 => exact mulLargeFrontier_spec W hW ws w1
+    | large w1 => exact mulLarge_spec W hW ws w1 ha.large_words hb.large_words
 
 theorem TRepr.sqr_spec (W : Nat) (hW : 1 ≤ W) (a : TRepr) (ha : a.Canon W) :
     (a.sqr W).value W = a.value W * a.value W ∧ (a.sqr W).Canon W := by
